@@ -6,7 +6,7 @@ current value and writes it back at commit) and set(exist=True|False) (decides o
 Nested blocks (`nin` .. `nout`), also inner blocks that are LEFT BY AN EXCEPTION WHICH THE ENCLOSING BODY CATCHES (`nin` .. `nfail`): nested
 blocks are flat, the failure of an inner block does not mark the transaction.  Block forms: context manager on an object of its own
 ("ctx"), a call of one decorated function shared by all tasks ("dec"), context manager on ONE context object shared by all tasks
-("obj": `T = cache.transaction(m)`, `async with T:` in several tasks at once - defect D45, signature D45:shared-transaction-context-object).
+("obj": `T = cache.transaction(m)`, `async with T:` in several tasks at once - defect D51, signature D51:shared-transaction-context-object).
 Block endings: the body returns, raises an exception object of one of four kinds (an Exception / a BaseException that is not an
 Exception, each with truthy instances - like every built-in exception - or with FALSY instances: a class defining `__len__` /
 `__bool__`, e.g. an error collection raised while empty), gets LockedError, or the
@@ -725,13 +725,13 @@ def describe(r):
     return rows
 
 
-D45 = "D45:shared-transaction-context-object"
+D51 = "D51:shared-transaction-context-object"
 
 
 def sharing_is_the_cause(case) -> bool:
     """the failing case has >= 2 tasks entering THE shared context object (form "obj") of one (mode, timeout), and the very same case
     is fine when every block is opened on a context object of its own instead ("obj" -> "ctx"): what breaks it is state shared
-    between tasks through the object (defect D45, repaired by keeping the per-block state per transaction)"""
+    between tasks through the object (defect D51, repaired by keeping the per-block state per transaction)"""
     users = {}
     for p in case["programs"]:
         if p["kind"] == "tx" and (p.get("form") == "obj" or any(op[0] == "nin" and op[1] == "obj" for op in p["ops"])):
@@ -765,7 +765,7 @@ def report(chk: Check, r, origin):
                  "trace": describe(rr), "first_diff_vs_model": rr["mdiff"], "origin": origin,
                  "same_case_on_context_objects_of_their_own": "no disagreement",
                  "replay_cmd": "./check C05 --replay <this file>"},
-                signature=D45)
+                signature=D51)
             return
         chk.violation(
             f"{stmt}: {msgs[0]}",
@@ -883,7 +883,7 @@ def exhaustive_families():
                               tx(mode, [["incr", 0, 4]], "dec", 40)], mode != "locked"))
     for mode in ("fast", "locked", "serializable"):
         # ONE context object `T = cache.transaction(mode)` entered by several tasks at once (`async with T:` in two handlers): each task
-        # has its own transaction; what a block remembers is kept per transaction, not on the shared object (defect D45)
+        # has its own transaction; what a block remembers is kept per transaction, not on the shared object (defect D51)
         fams.append((f"{mode}: two tasks inside `async with T:` on ONE shared context object: a committing writer against a block that raises",
                      {0: 1}, [tx(mode, [["set", 1, 5], ["incr", 0, 1]], "obj", 40), tx(mode, [["incr", 0, 2], ["set", 2, 6], ["raise"]], "obj", 40)], True))
         fams.append((f"{mode}: the shared context object re-entered by its own task (nested in itself) while another task is inside it with a "
